@@ -1,12 +1,30 @@
 ENGINES = [
     {'name': 'X', 'path': 'lib/xworker.py', 'kind_free_text': 'CrossHair 0.0.110 symbolic execution of the real Python functions (z3 decides every branch), one OS process per condition, vacuity twin per condition, plain-CPython replay of every counterexample',
-     'serves_properties': ['C02', 'C06', 'C08', 'C09', 'C10', 'C11', 'C13', 'C14', 'C15', 'C16', 'C17', 'C18', 'C19', 'C20']},
+     'serves_properties': ['C01', 'C02', 'C05', 'C06', 'C08', 'C09', 'C10', 'C11', 'C13', 'C14', 'C15', 'C16', 'C17', 'C18', 'C19', 'C20']},
     {'name': 'Z', 'path': 'lib/zworker.py', 'kind_free_text': 'z3 sequence-theory queries over SHA-1 pre-image terms recorded by executing the real digest code on symbolic strings (lib/zsym.py); sat models replayed on the real functions with the real hashlib',
      'serves_properties': ['C02', 'C03', 'C07']},
 ]
 NOTES = ('Technique family: solver-based checking of the real code. Every result is bounded; bounds, stubs and '
          'assumptions are in evidence/<id>.json and DESIGN.md. Exit 2 of ./check = harness error (never a verdict).')
 CLAIMS = {
+    'C01': dict(
+        engine='X',
+        technique='CrossHair+z3 enumeration of edit histories through real in-process bob dev / bob build invocations (real parser, ids, directory oracle, state, cook logic, directory hashing) with a deterministic script model, compared with a clean build by the same real code',
+        text='For every history of <= 2 (quick) / 3 (thorough) edits out of 11 kinds (script texts of recipe and class, strong and weak variable values, consumed-variable list, checkout script, dependency add/remove, '
+             're-parameterised second variant) on the project app -> {lib, mid -> lib}, in develop and release mode: after each incremental build every package result (full directory content) equals the result of a '
+             'from-scratch build of the same project state, no build/package workspace was reused for a different script without being emptied, every visited workspace has a truthful audit trail, and an immediately '
+             'repeated build executes no step at all.',
+        design_ref='DESIGN.md section 4, C01',
+        note='Trusted: the script model (output = hash of script, strong environment, argument results). Outside: real script execution, import/git/url sources and source file edits, -j (see C06), downloads, '
+             'projects beyond the one modelled.'),
+    'C05': dict(
+        engine='X',
+        technique='CrossHair+z3 enumeration of abort plans (failing / killed step, kill before the n-th persistent-state save, failing audit write) through real in-process bob invocations, followed by a fault-free invocation compared with a clean build',
+        text='For every edit kind, abort in the first build of a fresh workspace or in the rebuild after the edit, abort = script fails after partial output in any of 8 steps / process killed inside any of the 8 steps / '
+             'process killed before any of the first 35 saves of the workspace state / audit trail cannot be written: the next invocation (stale lock removed) completes, every package result equals a clean build, every '
+             'visited workspace has a truthful audit trail and a repeated build executes nothing.',
+        design_ref='DESIGN.md section 4, C05',
+        note='Trusted: script model, kill = BaseException raised at the kill point with all later state saves of that invocation suppressed. Outside: torn state files (C10), kills inside SCM commands, downloads, two consecutive aborts (thorough only).'),
     'C14': dict(
         engine='X',
         technique='CrossHair+z3 enumeration of dependency structures and -M settings through the real LocalBuilder._generateAudit and bob.audit code (real json/gzip/pickle files in a scratch directory)',
@@ -118,13 +136,14 @@ CLAIMS = {
     'C06': dict(
         engine='X',
         technique='bounded symbolic schedule exploration (CrossHair+z3 choose every scheduling decision) of the real JobServerSemaphore coroutines on a stub event loop and pipe',
-        text='For k<=4 tasks x <=2 rounds (plain acquire/job/release and the yield-job pattern), n<=2 tokens, internal and external (recursive) job server mode and one '
+        text='(1) Token semaphore: for k<=4 tasks x <=2 rounds (plain acquire/job/release and the yield-job pattern), n<=2 tokens, internal and external (recursive) job server mode and one '
              'foreign take/give of a token, EVERY schedule prefix of S steps followed by a fair completion satisfies: running jobs <= tokens (+1 implicit slot), '
-             'no exception, no lost wake-up (run completes), all tokens back in the pipe and none duplicated. Part of the property only: the cook/_cookStep orchestration '
-             '(dependency order, keep-going, one execution per workspace) is not covered yet.',
+             'no exception, no lost wake-up (run completes), all tokens back in the pipe and none duplicated. (2) Orchestration: real in-process `bob dev -jN [-k]` builds of a project in which one package is '
+             'reached on two paths plus an independent second root, with a failure injected into every step, N in 1..3: every step runs at most once, only after its dependencies, nothing depending on the '
+             'failed step runs, without keep-going nothing starts after the failure (-j1), with keep-going the independent root is still built.',
         design_ref='DESIGN.md section 4, C06',
         note='Trusted: stub loop/pipe semantics (any enabled action may run next: superset of asyncio orders), real asyncio.Semaphore. Outside: task cancellation (aborted builds), '
-             'Windows BoundedSemaphore branch, schedules longer than the bound, the orchestration half of the property.'),
+             'Windows BoundedSemaphore branch, schedules longer than the bound; orchestration: asyncio schedules are those the real event loop produces for instantaneous scripts (no symbolic step durations).'),
     'C10': dict(
         engine='X',
         technique='symbolic fault plan (crash index, torn-write image) over the real _BobState persistence code on a stub POSIX file system; CrossHair+z3 decide crash points and operation sequences; bounded',
